@@ -44,7 +44,14 @@ type c14Cli struct {
 	DefBody    []byte
 	Name       string
 	Hits       int
+	// C06 through the command line
+	Chunked   bool
+	MaxBody   int64 // -1 = no limit
+	Redirects int   // -redirects
+	Redir     []int // per target: the server redirects (302) this many times before it answers 200
 }
+
+const wireBody = "0123456789"
 
 type wireReq struct {
 	Method, Path string
@@ -143,7 +150,13 @@ func (s *wireServer) serve(c net.Conn) {
 		s.mu.Lock()
 		s.reqs = append(s.reqs, req)
 		s.mu.Unlock()
-		resp := "HTTP/1.1 200 OK\r\nContent-Length: 2\r\nX-Served: yes\r\n\r\nok"
+		resp := "HTTP/1.1 200 OK\r\nContent-Length: 10\r\nX-Served: yes\r\n\r\n" + wireBody
+		if i := strings.Index(req.Path, "&r="); i >= 0 {
+			if k, _ := strconv.Atoi(req.Path[i+3:]); k > 0 {
+				loc := fmt.Sprintf("%s&r=%d", req.Path[:i], k-1)
+				resp = "HTTP/1.1 302 Found\r\nLocation: " + loc + "\r\nContent-Length: 10\r\nX-Served: redirect\r\n\r\n" + wireBody
+			}
+		}
 		if _, err := c.Write([]byte(resp)); err != nil {
 			return
 		}
@@ -209,6 +222,10 @@ func runC14Cli(c c14Cli) error {
 	if c.Lazy {
 		args = append(args, "-lazy")
 	}
+	if c.Chunked {
+		args = append(args, "-chunked")
+	}
+	args = append(args, "-max-body="+strconv.FormatInt(c.MaxBody, 10), "-redirects="+strconv.Itoa(c.Redirects))
 	if c.Name != "" {
 		args = append(args, "-name="+c.Name)
 	}
@@ -248,6 +265,11 @@ func runC14Cli(c c14Cli) error {
 		}
 		seq, _ := strconv.Atoi(seqs[0])
 		t := c.Targets[seq%len(c.Targets)]
+		if rq.Path != t.Path {
+			if strings.HasPrefix(rq.Path, t.Path[:strings.Index(t.Path, "&r=")]) {
+				continue // a follow-up request of a redirect chain (net/http builds it, not vegeta)
+			}
+		}
 		what := fmt.Sprintf("%s format, lazy=%v, hit %d (target %d: %s %s)", c.Format, c.Lazy, seq, seq%len(c.Targets), t.Method, t.Path)
 		if rq.Method != t.Method || rq.Path != t.Path {
 			return fmt.Errorf("%s: the wire shows %s %s", what, rq.Method, rq.Path)
@@ -273,6 +295,10 @@ func runC14Cli(c c14Cli) error {
 				return fmt.Errorf("%s: header %q on the wire = %q, want %q (defaults first, the target's own values added, exact letter case); all: %v", what, k, got, vs, rq.Header)
 			}
 		}
+		te := strings.ToLower(strings.Join(rq.Header["Transfer-Encoding"], ","))
+		if hasBody := len(wantBody) > 0; (c.Chunked && hasBody) != strings.Contains(te, "chunked") {
+			return fmt.Errorf("%s: -chunked=%v, body of %d bytes, Transfer-Encoding on the wire: %q", what, c.Chunked, len(wantBody), te)
+		}
 		if got := rq.Header["X-Vegeta-Attack"]; (c.Name == "") != (len(got) == 0) || (c.Name != "" && got[0] != c.Name) {
 			return fmt.Errorf("%s: X-Vegeta-Attack on the wire = %q for -name=%q", what, got, c.Name)
 		}
@@ -284,15 +310,40 @@ func runC14Cli(c c14Cli) error {
 			return fmt.Errorf("sequence number %d appears twice in the results file", r.Seq)
 		}
 		seen[r.Seq] = true
-		if r.Error != "" {
+		if r.Method == "" {
+			continue // the hit of a lazy targeter that ran dry
+		}
+		ti := int(r.Seq) % len(c.Targets)
+		t := c.Targets[ti]
+		k := 0
+		if ti < len(c.Redir) {
+			k = c.Redir[ti]
+		}
+		what := fmt.Sprintf("result %d (target %d, %d redirects served, -redirects=%d, -max-body=%d)", r.Seq, ti, k, c.Redirects, c.MaxBody)
+		wantCode, wantServed := uint16(200), "yes"
+		switch {
+		case c.Redirects == -1:
+			if k > 0 {
+				wantCode, wantServed = 302, "redirect" // not followed, marked as success
+			}
+		case k > c.Redirects:
+			if r.Error == "" || (r.Code >= 200 && r.Code < 400) {
+				return fmt.Errorf("%s: the redirect limit was exceeded but the result has code %d and error %q", what, r.Code, r.Error)
+			}
 			continue
 		}
-		t := c.Targets[int(r.Seq)%len(c.Targets)]
-		if r.Method != t.Method || r.URL != base+t.Path || r.Attack != c.Name || r.Code != 200 || string(r.Body) != "ok" || r.BytesIn != 2 {
-			return fmt.Errorf("result %d = %s %s code %d body %q attack %q, want target %d answered 200 \"ok\"", r.Seq, r.Method, r.URL, r.Code, r.Body, r.Attack, int(r.Seq)%len(c.Targets))
+		if r.Error != "" {
+			return fmt.Errorf("%s: unexpected error %q", what, r.Error)
 		}
-		if r.Headers.Get("X-Served") != "yes" {
-			return fmt.Errorf("result %d lacks the response headers", r.Seq)
+		wantB := wireBody
+		if c.MaxBody >= 0 && int64(len(wantB)) > c.MaxBody {
+			wantB = wantB[:c.MaxBody]
+		}
+		if r.Method != t.Method || r.URL != base+t.Path || r.Attack != c.Name || r.Code != wantCode || string(r.Body) != wantB || r.BytesIn != uint64(len(wantB)) {
+			return fmt.Errorf("%s = %s %s code %d body %q bytes_in %d attack %q, want code %d body %q", what, r.Method, r.URL, r.Code, r.Body, r.BytesIn, r.Attack, wantCode, wantB)
+		}
+		if r.Headers.Get("X-Served") != wantServed {
+			return fmt.Errorf("%s: response header X-Served = %q, want %q", what, r.Headers.Get("X-Served"), wantServed)
 		}
 	}
 	keys := make([]int, 0, len(seen))
@@ -319,7 +370,9 @@ func TestC14Cli(t *testing.T) {
 	vh.ShrinkTime("5s")
 	vh.Check(t, 12, 300, func(t *rapid.T) {
 		c := c14Cli{Format: rapid.SampledFrom([]string{"http", "json"}).Draw(t, "format"), Lazy: rapid.Bool().Draw(t, "lazy"),
-			Name: rapid.SampledFrom([]string{"", "", "big-bang"}).Draw(t, "name"), Hits: rapid.IntRange(4, 30).Draw(t, "hits")}
+			Name: rapid.SampledFrom([]string{"", "", "big-bang"}).Draw(t, "name"), Hits: rapid.IntRange(4, 30).Draw(t, "hits"),
+			Chunked: rapid.IntRange(0, 3).Draw(t, "chunked") == 0, MaxBody: rapid.SampledFrom([]int64{-1, -1, 0, 1, 9, 10, 11, 4096}).Draw(t, "maxbody"),
+			Redirects: rapid.SampledFrom([]int{10, 10, -1, 0, 1, 2}).Draw(t, "redirects")}
 		keyGen := rapid.OneOf(rapid.SampledFrom([]string{"Content-Type", "content-type", "X-Account-ID", "x-account-id", "SOAPAction", "X-Trace", "x-trace"}), rapid.StringMatching(`[A-Za-z][A-Za-z0-9-]{0,8}`))
 		valGen := rapid.StringMatching(`[A-Za-z0-9/=;.-][A-Za-z0-9/=;., -]{0,10}[A-Za-z0-9/=;.-]`)
 		nd := rapid.IntRange(0, 3).Draw(t, "ndef")
@@ -345,7 +398,7 @@ func TestC14Cli(t *testing.T) {
 		nt := rapid.IntRange(1, 5).Draw(t, "ntargets")
 		shared := 0
 		for i := 0; i < nt; i++ {
-			tg := c14CliTarget{Method: rapid.SampledFrom([]string{"GET", "POST", "PUT", "DELETE", "PATCH"}).Draw(t, fmt.Sprintf("m%d", i)), Path: fmt.Sprintf("/t/%d?x=%d", i, i)}
+			tg := c14CliTarget{Method: rapid.SampledFrom([]string{"GET", "POST", "PUT", "DELETE", "PATCH"}).Draw(t, fmt.Sprintf("m%d", i)), Path: fmt.Sprintf("/t/%d?x=%d&r=0", i, i)}
 			for j := rapid.IntRange(0, 4).Draw(t, fmt.Sprintf("nh%d", i)); j > 0; j-- {
 				kv := c14CliKV{keyGen.Draw(t, fmt.Sprintf("k%d.%d", i, j)), valGen.Draw(t, fmt.Sprintf("v%d.%d", i, j))}
 				if len(defKeys) > 0 && rapid.Bool().Draw(t, fmt.Sprintf("sh%d.%d", i, j)) {
@@ -360,6 +413,12 @@ func TestC14Cli(t *testing.T) {
 			if rapid.Bool().Draw(t, fmt.Sprintf("body%d", i)) {
 				tg.Body = []byte(fmt.Sprintf("body of target %d", i))
 			}
+			k := 0
+			if rapid.IntRange(0, 2).Draw(t, fmt.Sprintf("redir%d", i)) == 0 {
+				k = rapid.IntRange(1, 3).Draw(t, fmt.Sprintf("nredir%d", i))
+			}
+			c.Redir = append(c.Redir, k)
+			tg.Path = fmt.Sprintf("/t/%d?x=%d&r=%d", i, i, k)
 			c.Targets = append(c.Targets, tg)
 		}
 		// keys that differ only in letter case are merged by net/http on the wire into separate lines with their own case; keep them,
